@@ -1,6 +1,7 @@
 mod boardsig;
 mod bussig;
 mod exhaust;
+mod fuzz;
 mod proj;
 mod replay;
 mod scenario;
@@ -25,6 +26,7 @@ fn main() {
         "decode-check" => exhaust::decode_check(&args[2], args.get(3).map(|x| x == "mac").unwrap_or(false)),
         "nextaddr-check" => exhaust::nextaddr_check(&args[2], args.get(3).map(|x| x == "sets").unwrap_or(false)),
         "irstep-check" => exhaust::irstep_check(&args[2]),
+        "fuzz" => fuzz::fuzz(args[2].parse().unwrap(), args[3].parse().unwrap()),
         "muldiv-term" => exhaust::muldiv_term(),
         "scenario" => scenario::run_script(&args[2], &args[3]),
         "bus-sig-check" => bussig::check(&args[2]),
